@@ -21,6 +21,7 @@ import (
 	"strconv"
 	"strings"
 	"sync"
+	"time"
 
 	"verif/harness/lib"
 )
@@ -31,7 +32,8 @@ type c19Def struct {
 	Name   string   `json:"name"`    //
 	Forms  []string `json:"forms"`   //
 	Probes []string `json:"probes"`  //
-	Deps   []string `json:"deps"`    // flavors: direct components
+	Deps   []string `json:"deps"`    // flavors, classes, packages: direct components / superclasses / used packages
+	Needs  []string `json:"needs"`   // <operator>=<name>: definitions the value / the methods of this definition need when loaded
 	Arity  int      `json:"arity"`   // defun: number of required integer arguments
 	IntVal bool     `json:"int_val"` // defvar/defparameter/defconstant: holds an integer
 }
@@ -186,7 +188,7 @@ func c19SessionSweep() []c19Session {
 		c19Def{Kind: "defflavor", Name: "zqfd", Deps: []string{"zqfb", "zqfc"}, Forms: []string{"(defflavor zqfd ((d 4)) (zqfb zqfc) :gettable-instance-variables)"},
 			Probes: []string{"(let ((i (make-instance 'zqfd))) (list (send i :a) (send i :b) (send i :c) (send i :d)))"}})
 	add("defflavor/instance-variable", c19Def{Kind: "defflavor", Name: "zqfa", Forms: []string{"(defflavor zqfa ((a 1) (l nil)) () :gettable-instance-variables :settable-instance-variables :inittable-instance-variables)"}},
-		c19D("defvar", "zqi", []string{"(defvar zqi (make-instance 'zqfa :a 5))", "(send zqi :set-l '(x \"y\" 2))"}, "(send zqi :a)", "(send zqi :l)"))
+		c19Def{Kind: "defvar", Name: "zqi", Needs: []string{"defflavor=zqfa"}, Forms: []string{"(defvar zqi (make-instance 'zqfa :a 5))", "(send zqi :set-l '(x \"y\" 2))"}, Probes: []string{"(send zqi :a)", "(send zqi :l)"}})
 	add("defflavor/instance-slot-nil", c19Def{Kind: "defflavor", Name: "zqfa", Forms: []string{"(defflavor zqfa ((a 1) (b t) c) () :gettable-instance-variables :settable-instance-variables :inittable-instance-variables)"}},
 		c19D("defvar", "zqi", []string{"(defvar zqi (make-instance 'zqfa))", "(setf (slot-value zqi 'a) nil)", "(send zqi :set-b nil)"},
 			"(list (send zqi :a) (send zqi :b) (send zqi :c))"))
@@ -249,15 +251,69 @@ func c19SessionSweep() []c19Session {
 		}
 		add(fmt.Sprintf("defflavor/order-witness-%d", n), defs...)
 	}
-	// --- classes
+	// --- classes (written by the snapshot since fix 0016: a section between the flavors and the variables)
 	cl := func(cell string, forms []string, probes ...string) {
 		add("defclass/"+cell, c19D("defclass", "zqcl", forms, probes...))
 	}
 	cl("plain", []string{"(defclass zqcl () ((s1 :initarg :s1 :initform 3)))"}, "(slot-value (make-instance 'zqcl) 's1)", "(slot-value (make-instance 'zqcl :s1 4) 's1)")
 	cl("reader", []string{"(defclass zqcl () ((s1 :initarg :s1 :initform 3 :reader zqcl-s1)))"}, "(zqcl-s1 (make-instance 'zqcl))")
 	cl("accessor", []string{"(defclass zqcl () ((s1 :initarg :s1 :initform 3 :accessor zqcl-s1)))"}, "(let ((o (make-instance 'zqcl))) (setf (zqcl-s1 o) 9) (zqcl-s1 o))")
-	cl("inherit", []string{"(defclass zqcl () ((s1 :initarg :s1 :initform 3)))", "(defclass zqcl2 (zqcl) ((s2 :initarg :s2)))"},
-		"(let ((o (make-instance 'zqcl2 :s2 4))) (list (slot-value o 's1) (slot-value o 's2)))")
+	cl("slot-options", []string{"(defclass zqcl () ((s1 :initarg :s1 :initform 3 :allocation :class) (s2 :initarg :s2 :type fixnum :documentation \"Slot two.\") (s3 :initform 'sym) (s4 :initform \"str\") (s5 :initform '(1 b)) s6) (:documentation \"A class.\") (:default-initargs :s2 (+ 1 2)))"},
+		"(let ((o (make-instance 'zqcl))) (list (slot-value o 's1) (slot-value o 's2) (slot-value o 's3) (slot-value o 's4) (slot-value o 's5) (slot-boundp o 's6)))",
+		"(slot-value (make-instance 'zqcl :s2 9 :s1 8) 's2)", "(documentation 'zqcl 'type)")
+	clD := func(name string, supers []string, form string, probes ...string) c19Def {
+		return c19Def{Kind: "defclass", Name: name, Deps: supers, Forms: []string{form}, Probes: probes}
+	}
+	add("defclass/inherit", clD("zqcl", nil, "(defclass zqcl () ((s1 :initarg :s1 :initform 3)))"),
+		clD("zqcl2", []string{"zqcl"}, "(defclass zqcl2 (zqcl) ((s2 :initarg :s2)))", "(let ((o (make-instance 'zqcl2 :s2 4))) (list (slot-value o 's1) (slot-value o 's2)))"))
+	// the superclass sorts AFTER its subclasses by name: only the count of inherited classes orders them
+	add("defclass/superclass-named-later", clD("zqcz", nil, "(defclass zqcz () ((a :initform 1)))"),
+		clD("zqca", []string{"zqcz"}, "(defclass zqca (zqcz) ((b :initform 2)))"),
+		clD("zqcm", []string{"zqca"}, "(defclass zqcm (zqca) ())", "(let ((o (make-instance 'zqcm))) (list (slot-value o 'a) (slot-value o 'b)))"))
+	add("defclass/diamond", clD("zqca", nil, "(defclass zqca () ((a :initform 1)))"),
+		clD("zqcb", []string{"zqca"}, "(defclass zqcb (zqca) ((b :initform 2)))"), clD("zqcc", []string{"zqca"}, "(defclass zqcc (zqca) ((c :initform 3) (b :initform 'from-c)))"),
+		clD("zqcd", []string{"zqcb", "zqcc"}, "(defclass zqcd (zqcb zqcc) ((d :initform 4)))", "(let ((o (make-instance 'zqcd))) (list (slot-value o 'a) (slot-value o 'b) (slot-value o 'c) (slot-value o 'd)))"),
+		clD("zqce", []string{"zqcc", "zqcb"}, "(defclass zqce (zqcc zqcb) ())", "(slot-value (make-instance 'zqce) 'b)"))
+	add("defclass/instance-variable", clD("zqcl", nil, "(defclass zqcl () ((s1 :initarg :s1 :initform 3) (s2 :initform nil) s3))"),
+		c19Def{Kind: "defvar", Name: "zqi", Needs: []string{"defclass=zqcl"}, Forms: []string{"(defvar zqi (make-instance 'zqcl :s1 '(a \"b\" 2)))", "(setf (slot-value zqi 's2) 'sym)"},
+			Probes: []string{"(list (slot-value zqi 's1) (slot-value zqi 's2) (slot-boundp zqi 's3))"}})
+	add("defclass/method-specializer", clD("zqca", nil, "(defclass zqca () ((a :initform 1)))"), clD("zqcb", []string{"zqca"}, "(defclass zqcb (zqca) ((b :initform 2)))"),
+		c19Def{Kind: "defgeneric", Name: "zqg", Needs: []string{"defclass=zqca", "defclass=zqcb"}, Forms: []string{"(defgeneric zqg (x y))", "(defmethod zqg ((x zqca) (y fixnum)) (list 'a (slot-value x 'a) y))",
+			"(defmethod zqg ((x zqcb) (y fixnum)) (list 'b (slot-value x 'b) y))", "(defmethod zqg :before ((x zqca) (y fixnum)) (setf (slot-value x 'a) (+ y (slot-value x 'a))))"},
+			Probes: []string{"(zqg (make-instance 'zqca) 1)", "(zqg (make-instance 'zqcb) 2)"}})
+	add("defclass/with-flavor-and-variable", c19Def{Kind: "defflavor", Name: "zqfa", Forms: []string{"(defflavor zqfa ((a 1)) () :gettable-instance-variables)"}},
+		clD("zqcl", nil, "(defclass zqcl () ((s1 :initform 3)))"),
+		c19Def{Kind: "defvar", Name: "zqv", Needs: []string{"defclass=zqcl", "defflavor=zqfa"}, Forms: []string{"(defvar zqv (list 1 2))", "(setq zqv (make-instance 'zqcl))"}, Probes: []string{"(slot-value zqv 's1)"}},
+		c19Def{Kind: "defvar", Name: "zqw", Needs: []string{"defflavor=zqfa"}, Forms: []string{"(defvar zqw (make-instance 'zqfa))"}, Probes: []string{"(send zqw :a)"}})
+	add("define-condition/plain", c19D("defclass", "zqcond", []string{"(define-condition zqcond (error) ((why :initarg :why :initform 'unknown)) (:documentation \"A condition.\"))"},
+		"(slot-value (make-condition 'zqcond :why 'because) 'why)", "(slot-value (make-condition 'zqcond) 'why)", "(typep (make-condition 'zqcond) 'error)"))
+	add("define-condition/report", c19D("defclass", "zqcond", []string{"(define-condition zqcond (error) ((why :initarg :why)) (:report \"it failed\"))"},
+		"(slot-value (make-condition 'zqcond :why 3) 'why)"))
+	add("define-condition/inherit", c19Def{Kind: "defclass", Name: "zqcond", Forms: []string{"(define-condition zqcond (error) ((why :initarg :why :initform 1)))"}},
+		c19Def{Kind: "defclass", Name: "zqcond2", Deps: []string{"zqcond"}, Forms: []string{"(define-condition zqcond2 (zqcond) ((more :initarg :more :initform 2)))"},
+			Probes: []string{"(let ((c (make-condition 'zqcond2))) (list (slot-value c 'why) (slot-value c 'more)))", "(typep (make-condition 'zqcond2) 'zqcond)"}})
+	// a constant holding an instance: load evaluates defconstant forms in its first pass, before any
+	// defflavor / defclass (model: constant_instance_not_loadable)
+	add("defconstant/flavor-instance", c19Def{Kind: "defflavor", Name: "zqfa", Forms: []string{"(defflavor zqfa ((a 1)) () :gettable-instance-variables)"}},
+		c19Def{Kind: "defconstant", Name: "zqc", Needs: []string{"defflavor=zqfa"}, Forms: []string{"(defconstant zqc (make-instance 'zqfa))"}, Probes: []string{"(send zqc :a)"}})
+	add("defconstant/class-instance", clD("zqcl", nil, "(defclass zqcl () ((s1 :initform 3)))"),
+		c19Def{Kind: "defconstant", Name: "zqc", Needs: []string{"defclass=zqcl"}, Forms: []string{"(defconstant zqc (make-instance 'zqcl))"}, Probes: []string{"(slot-value zqc 's1)"}})
+	add("defun/calls-generic", c19D("defgeneric", "zqga", []string{"(defgeneric zqga (x))", "(defmethod zqga ((x fixnum)) (* x 2))"}, "(zqga 4)"),
+		c19D("defun", "zqfz", []string{"(defun zqfz (x) (zqga x))"}, "(zqfz 4)"))
+	one("defstruct", "plain", "zqst", "(defstruct zqst (a 1) b)", "(zqst-a (make-zqst))", "(zqst-b (make-zqst :b 5))")
+	// the printer settings of the session are saved with the session and must not change what is written
+	for _, ps := range []struct{ cell, set string }{
+		{"print-base-16", "(setq *print-base* 16)"}, {"print-radix", "(setq *print-radix* t)"}, {"print-length-3", "(setq *print-length* 3)"},
+		{"print-level-2", "(setq *print-level* 2)"}, {"print-case-upcase", "(setq *print-case* :upcase)"}, {"print-escape-nil", "(setq *print-escape* nil)"},
+		{"print-pretty-nil", "(setq *print-pretty* nil)"}, {"print-readably", "(setq *print-readably* t)"}, {"print-array-nil", "(setq *print-array* nil)"},
+		{"print-lines-1", "(setq *print-lines* 1)"}, {"print-miser-width", "(setq *print-miser-width* 60)"},
+	} {
+		add("setq/"+ps.cell, c19D("defvar", "zqv", []string{"(defvar zqv '(1 2 3 4 5 6 255 \"s t\" sym :k 1.5 #\\a (a (b (c (d \"deep\"))))))"},
+			"(length zqv)", "(nth 6 zqv)", "(nth 7 zqv)", "(car (cadr (cadr (nth 12 zqv))))"),
+			c19D("defvar", "zqw", []string{"(defvar zqw (vector 10 'a \"s\" '(17 18 19 20 21)))"}, "(length zqw)", "(aref zqw 0)", "(length (aref zqw 3))"),
+			c19D("defun", "zqf", []string{"(defun zqf (x) (let ((y (* x 255))) (if (> y 3) (list x y 'q \"str\" #\\b '(1 2 3 4 5 (a (b (c))))) nil)))"}, "(length (zqf 17))", "(cadr (zqf 2))"),
+			c19D("setq", "print-setting", []string{ps.set}))
+	}
 	// --- generic functions
 	gf := func(cell string, forms []string, probes ...string) {
 		add("defgeneric/"+cell, c19D("defgeneric", "zqg", forms, probes...))
@@ -305,6 +361,8 @@ func c19SessionSweep() []c19Session {
 
 type c19SessGen struct {
 	fvars   map[string][]string // flavor -> every instance variable it has (own and inherited)
+	classes []c19Def            // classes defined so far
+	cslots  map[string][]string // class -> every slot with an initform (own and inherited)
 	pkgs    []string            // user packages defined so far
 	noCalls bool                // (state) no calls of user functions in the expression being generated
 	r       *lib.Rng
@@ -404,7 +462,9 @@ func (g *c19SessGen) addDef() {
 		}
 		return ""
 	}
-	switch r.Intn(14) {
+	switch r.Intn(16) {
+	case 14, 15:
+		g.addClass()
 	case 12, 13:
 		// a variable holding a generated nested value (the generator of leg A)
 		if g.listed("defvar/list") || g.listed("defvar/vector") || g.listed("defvar/hash-table") || g.listed("defvar/array-2d") {
@@ -629,6 +689,79 @@ func (g *c19SessGen) addDef() {
 	}
 }
 
+// addClass: a class with initforms of several kinds, possibly a superclass defined earlier (the name
+// may sort before or after it), possibly a variable holding an instance and a generic function with
+// methods specialised on the class and on its superclass
+func (g *c19SessGen) addClass() {
+	r := g.r
+	if g.listed("defclass/plain") || g.listed("defclass/inherit") || g.listed("defclass/slot-options") {
+		return
+	}
+	g.n++
+	name := fmt.Sprintf("zq%ccl%03d", 'a'+rune(r.Intn(26)), g.n)
+	d := c19Def{Kind: "defclass", Name: name}
+	slot := g.name("s")
+	inits := []string{fmt.Sprint(r.Intn(90)), "\"str\"", "'sym", "'(1 b \"c\")", "nil", "t", ":kw", "1.5"}
+	slots := fmt.Sprintf("(%s :initarg :%s :initform %s)", slot, slot, inits[r.Intn(len(inits))])
+	all := []string{slot}
+	if r.Chance(50) {
+		slots += fmt.Sprintf(" (%s-b :initform %s)", slot, inits[r.Intn(len(inits))])
+		all = append(all, slot+"-b")
+	}
+	if r.Chance(30) {
+		slots += fmt.Sprintf(" %s-u", slot)
+	}
+	super := ""
+	if len(g.classes) > 0 && r.Chance(60) {
+		sc := g.classes[r.Intn(len(g.classes))]
+		super = sc.Name
+		d.Deps = []string{super}
+		all = append(all, g.cslots[super]...)
+	}
+	if g.cslots == nil {
+		g.cslots = map[string][]string{}
+	}
+	g.cslots[name] = all
+	opts := ""
+	if r.Chance(30) && !g.listed("defclass/slot-options") {
+		opts = fmt.Sprintf(" (:documentation \"Class %d.\")", r.Intn(99))
+	}
+	d.Forms = []string{fmt.Sprintf("(defclass %s (%s) (%s)%s)", name, super, slots, opts)}
+	sv := make([]string, len(all))
+	for i, v := range all {
+		sv[i] = fmt.Sprintf("(slot-value o '%s)", v)
+	}
+	d.Probes = []string{fmt.Sprintf("(let ((o (make-instance '%s))) (list %s))", name, strings.Join(sv, " ")),
+		fmt.Sprintf("(slot-value (make-instance '%s :%s 77) '%s)", name, slot, slot)}
+	g.classes = append(g.classes, d)
+	g.defs = append(g.defs, d)
+	if r.Chance(40) && !g.listed("defclass/instance-variable") {
+		vn := g.name("v")
+		g.defs = append(g.defs, c19Def{Kind: "defvar", Name: vn, Needs: []string{"defclass=" + name},
+			Forms:  []string{fmt.Sprintf("(defvar %s (make-instance '%s :%s %d))", vn, name, slot, r.Intn(99)), fmt.Sprintf("(setf (slot-value %s '%s) '(set %d))", vn, all[len(all)-1], r.Intn(9))},
+			Probes: []string{fmt.Sprintf("(list %s)", strings.ReplaceAll(strings.Join(sv, " "), "(slot-value o ", "(slot-value "+vn+" "))}})
+	}
+	if r.Chance(40) && !g.listed("defclass/method-specializer") && !g.listed("defgeneric/specialized") {
+		gn := g.name("g")
+		gd := c19Def{Kind: "defgeneric", Name: gn, Needs: []string{"defclass=" + name}}
+		gd.Forms = []string{fmt.Sprintf("(defgeneric %s (x n))", gn), fmt.Sprintf("(defmethod %s ((x %s) (n fixnum)) (list '%s (slot-value x '%s) %s))", gn, name, name, slot, g.intExprNoCalls([]string{"n"}, 2))}
+		if super != "" {
+			gd.Needs = append(gd.Needs, "defclass="+super)
+			gd.Forms = append(gd.Forms, fmt.Sprintf("(defmethod %s ((x %s) (n fixnum)) (list '%s n))", gn, super, super))
+			gd.Probes = append(gd.Probes, fmt.Sprintf("(%s (make-instance '%s) 3)", gn, super))
+		}
+		gd.Probes = append(gd.Probes, fmt.Sprintf("(%s (make-instance '%s) 4)", gn, name))
+		g.defs = append(g.defs, gd)
+	}
+}
+
+func (g *c19SessGen) intExprNoCalls(vars []string, depth int) string {
+	old := g.noCalls
+	g.noCalls = true
+	defer func() { g.noCalls = old }()
+	return g.intExpr(vars, depth)
+}
+
 // ---------------------------------------------------------------------------------------------
 // generated values (leg A's generator) as the values of session variables
 
@@ -802,20 +935,23 @@ func c19RandSession(r *lib.Rng, listed func(string) bool) c19Session {
 // running a session
 
 type c19SessResult struct {
-	Sess     *c19Session
-	Aspect   string // "" = the property holds
-	Detail   string // part of the signature: failing form head / owner kind
-	Observed string
-	Expected string
-	Snap1    string
-	Snap2    string
-	Invalid  string   // the session itself did not evaluate (not a verdict)
-	Order    []string // flavors in the order of the first snapshot
-	PkgOrder []string // user packages in the order of the first snapshot
+	Sess       *c19Session
+	Aspect     string // "" = the property holds
+	Detail     string // part of the signature: failing form head / owner kind
+	Observed   string
+	Expected   string
+	Snap1      string
+	Snap2      string
+	Invalid    string   // the session itself did not evaluate (not a verdict)
+	Flaky      string   // a worker gave no usable reply (limit, could not start, died): run the session again alone
+	Order      []string // flavors in the order of the first snapshot
+	PkgOrder   []string // user packages in the order of the first snapshot
+	ClassOrder []string // user classes and conditions in the order of the first snapshot
 }
 
 var c19HeaderRe = regexp.MustCompile(`^;;;; Snapshot taken at [^\n]*\n`)
 var c19FlavorRe = regexp.MustCompile(`(?m)^\(defflavor (\S+)`)
+var c19ClassRe = regexp.MustCompile(`(?m)^\((?:defclass|define-condition) (\S+)`)
 var c19PackageRe = regexp.MustCompile(`(?m)^\(defpackage "([^"]+)"`)
 var c19HeadRe = regexp.MustCompile(`^\(\s*([^\s()]+)(?:\s+([^\s()]+))?`)
 
@@ -852,15 +988,57 @@ func (s *c19Session) ownerKind(name string) string {
 	return "builtin"
 }
 
+// c19RunSession runs a session; a session whose workers gave no usable reply is run again alone
+// (no other worker of this harness running) with the generous limit, twice if need be. Only what
+// the last run shows is a verdict: a worker that does not answer within c19WorkerLimitAlone while
+// it is the only one is a hang of the implementation (host-fault), a worker that dies again alone
+// is a crash of the implementation.
 func c19RunSession(dir string, sess *c19Session) (res c19SessResult) {
+	res = c19RunSessionLimit(dir, sess, c19WorkerLimit)
+	return
+}
+
+var c19AloneMu sync.Mutex
+
+func c19RunSessionAlone(dir string, sess *c19Session) (res c19SessResult) {
+	c19AloneMu.Lock()
+	defer c19AloneMu.Unlock()
+	for try := 0; try < 3; try++ {
+		res = c19RunSessionLimit(dir, sess, c19WorkerLimitAlone)
+		if res.Flaky == "" {
+			return
+		}
+	}
+	// still no usable reply when run alone with the generous limit: that is the implementation
+	if res.Aspect == "" {
+		res.Aspect, res.Detail, res.Observed, res.Expected = "host-fault", "no-reply", res.Flaky+" (three runs alone)", "the worker answers"
+		res.Invalid = ""
+	}
+	return
+}
+
+func c19RunSessionLimit(dir string, sess *c19Session, limit time.Duration) (res c19SessResult) {
 	res.Sess = sess
 	_ = os.RemoveAll(dir)
 	probes, owner := sess.probes()
 	forms := sess.forms()
-	r1, err := c19RunWorker(dir, &c19Req{Mode: "session", Forms: forms, Probes: probes, Snap: true})
+	flaky := func(err error) bool {
+		if f, ok := err.(*c19WorkerFlaky); ok {
+			res.Flaky = f.why
+			res.Invalid = "worker: " + f.why
+			return true
+		}
+		return false
+	}
+	r1, err := c19RunWorkerLimit(dir, &c19Req{Mode: "session", Forms: forms, Probes: probes, Snap: true}, limit)
 	if err != nil {
-		res.Invalid = "worker: " + err.Error()
+		if !flaky(err) {
+			res.Invalid = "worker: " + err.Error()
+		}
 		return
+	}
+	if r1.Died {
+		res.Flaky = r1.Panic
 	}
 	if r1.Panic != "" {
 		res.Aspect, res.Detail, res.Observed, res.Expected = "host-fault", "session", r1.Panic, "the session evaluates"
@@ -889,10 +1067,18 @@ func c19RunSession(dir string, sess *c19Session) (res c19SessResult) {
 	for _, m := range c19PackageRe.FindAllStringSubmatch(r1.Snapshot, -1) {
 		res.PkgOrder = append(res.PkgOrder, strings.ToLower(m[1]))
 	}
-	r2, err := c19RunWorker(dir, &c19Req{Mode: "load", File: "snap1.lisp", Probes: probes, Snap: true})
+	for _, m := range c19ClassRe.FindAllStringSubmatch(r1.Snapshot, -1) {
+		res.ClassOrder = append(res.ClassOrder, strings.ToLower(m[1]))
+	}
+	r2, err := c19RunWorkerLimit(dir, &c19Req{Mode: "load", File: "snap1.lisp", Probes: probes, Snap: true}, limit)
 	if err != nil {
-		res.Invalid = "worker: " + err.Error()
+		if !flaky(err) {
+			res.Invalid = "worker: " + err.Error()
+		}
 		return
+	}
+	if r2.Died {
+		res.Flaky = r2.Panic
 	}
 	if r2.Panic != "" {
 		res.Aspect, res.Detail, res.Observed, res.Expected = "host-fault", "load", r2.Panic, "the snapshot loads"
@@ -905,7 +1091,14 @@ func c19RunSession(dir string, sess *c19Session) (res c19SessResult) {
 		if r2.Load != nil {
 			res.Observed = "load: " + r2.Load.Class + ": " + r2.Load.Msg
 		}
-		r3, err3 := c19RunWorker(dir, &c19Req{Mode: "loadforms", File: "snap1.lisp"})
+		r3, err3 := c19RunWorkerLimit(dir, &c19Req{Mode: "loadforms", File: "snap1.lisp"}, limit)
+		if err3 != nil || r3.Died {
+			// the attribution is part of the signature: without it the session has to be run again
+			res.Flaky = "no reply from the worker that attributes the failed load"
+			if err3 != nil {
+				res.Flaky += ": " + err3.Error()
+			}
+		}
 		if err3 == nil {
 			for i, o := range r3.Forms {
 				if !o.Ok {
@@ -963,6 +1156,65 @@ func c19RunSession(dir string, sess *c19Session) (res c19SessResult) {
 	return
 }
 
+var c19MethodRe = regexp.MustCompile(`^\(defmethod \((\S+) ([^)]*)\)`)
+
+// c19SnapForms: the top-level forms of a snapshot text that belong to the session, in text order, as
+// tokens of the model request `lf snapload`: <operator>|<name>|<need>,… with the needs taken from the
+// SESSION (components, superclasses, used packages, the flavor of a method, the flavors/classes a value
+// is an instance of, the classes the methods of a generic function are specialised on).
+func c19SnapForms(sess *c19Session, text string) (tokens []string) {
+	byName := map[string]*c19Def{}
+	for i := range sess.Defs {
+		byName[sess.Defs[i].Name] = &sess.Defs[i]
+	}
+	clean := func(n string) string { return strings.NewReplacer("|", "/", ",", "/", "=", "/", " ", "/").Replace(n) }
+	for _, line := range strings.Split(text, "\n") {
+		if !strings.HasPrefix(line, "(") {
+			continue
+		}
+		if m := c19MethodRe.FindStringSubmatch(line); m != nil {
+			if d := byName[strings.ToLower(m[1])]; d != nil && d.Kind == "defflavor" {
+				tokens = append(tokens, fmt.Sprintf("defmethod|%s|defflavor=%s", clean(m[1]+"/"+m[2]), clean(d.Name)))
+			}
+			continue
+		}
+		head, name := c19FormHead(line)
+		d := byName[name]
+		if d == nil {
+			continue
+		}
+		var needs []string
+		dep := func(op string) {
+			for _, x := range d.Deps {
+				needs = append(needs, op+"="+clean(x))
+			}
+		}
+		switch head {
+		case "defflavor", "defpackage":
+			dep(head)
+		case "defclass", "define-condition":
+			// no need: slip's defclass accepts superclasses that are defined later
+		case "defconstant", "defgeneric":
+			needs = append(needs, d.Needs...)
+		case "setq":
+			if d.Kind == "defvar" || d.Kind == "defparameter" {
+				needs = append(needs, "defvar="+clean(name))
+			}
+			needs = append(needs, d.Needs...)
+		case "use-package":
+			if d.Kind != "defpackage" {
+				continue
+			}
+			needs = append(needs, "defpackage="+clean(name))
+		case "defvar", "defparameter", "defun", "defmacro":
+		default:
+			continue
+		}
+		tokens = append(tokens, fmt.Sprintf("%s|%s|%s", head, clean(name), strings.Join(needs, ",")))
+	}
+	return
+}
+
 func c19SessionKinds(s *c19Session) (n int, kinds map[string]bool) {
 	kinds = map[string]bool{}
 	for _, d := range s.Defs {
@@ -1003,7 +1255,15 @@ func c19RunSessions(c *lib.Ctx) {
 	}
 	// baseline gate: when the snapshot of an EMPTY session cannot be reloaded every other session
 	// fails for that same reason; report the one cause only
-	base0 := c19RunSession(filepath.Join(c.OutDir, "sessions-baseline"), &sessions[0])
+	// the scratch directories belong to THIS process: a second check of the same property running in
+	// the same verif root (another seed, a mutant) must not be able to remove or overwrite them
+	base := filepath.Join(c.OutDir, fmt.Sprintf("sessions-%d", os.Getpid()))
+	_ = os.RemoveAll(base)
+	defer func() { _ = os.RemoveAll(base) }()
+	base0 := c19RunSession(filepath.Join(base, "baseline"), &sessions[0])
+	if base0.Flaky != "" {
+		base0 = c19RunSessionAlone(filepath.Join(base, "baseline"), &sessions[0])
+	}
 	if base0.Invalid == "" && base0.Aspect != "" {
 		c.Ev.Case("s:empty", false)
 		c.Ev.Coverage["session_baseline_broken"] = base0.Aspect + ": " + base0.Observed
@@ -1011,8 +1271,6 @@ func c19RunSessions(c *lib.Ctx) {
 		return
 	}
 	results := make([]c19SessResult, len(sessions))
-	base := filepath.Join(c.OutDir, "sessions")
-	_ = os.RemoveAll(base)
 	var wg sync.WaitGroup
 	sem := make(chan struct{}, 8)
 	for i := range sessions {
@@ -1025,6 +1283,15 @@ func c19RunSessions(c *lib.Ctx) {
 		}(i)
 	}
 	wg.Wait()
+	// sessions whose workers gave no usable reply (limit hit on a loaded machine, fork failed, killed):
+	// again, one at a time, with the generous limit; only that run counts
+	for i := range results {
+		if results[i].Flaky != "" {
+			c.Ev.Count("sessions_rerun_alone", 1)
+			fmt.Fprintf(os.Stderr, "c19: session %d run again alone: %s\n", i, c19OneLine(results[i].Flaky))
+			results[i] = c19RunSessionAlone(filepath.Join(base, fmt.Sprintf("s%04d", i)), &sessions[i])
+		}
+	}
 	// the order of the flavors and of the packages in each snapshot, judged by the model: `lf close`
 	// flattens the session's direct components as slip does, `lf loads` defines them in the observed
 	// order (loadFlavors: a definition needs its components defined), `lf order` is the model's order
@@ -1040,10 +1307,15 @@ func c19RunSessions(c *lib.Ctx) {
 		if res.Invalid != "" {
 			continue
 		}
+		// (classes: slip accepts a superclass defined after its subclasses, so the order of the class
+		// section is not judged; the instances made from them are — probes, snapload)
 		for _, kind := range []string{"defflavor", "defpackage"} {
 			observed := res.Order
 			if kind == "defpackage" {
 				observed = res.PkgOrder
+			}
+			if kind == "defclass" {
+				observed = res.ClassOrder
 			}
 			if len(observed) < 2 {
 				continue
@@ -1096,6 +1368,61 @@ func c19RunSessions(c *lib.Ctx) {
 			res.Observed = fmt.Sprintf("%s is written before a definition it needs: %s (load: %s)", loads[2], strings.Join(oc.observed, " "), res.Observed)
 			res.Expected = "every definition after the definitions it inherits from / uses, e.g. the model's order " + strings.Join(want, " ")
 		}
+	}
+	// the evaluation order of the whole snapshot (sections + the two passes of load), by the model:
+	// `lf snapload` = loadForms (loadOrder hoistedHeads text). The model explains a failed load (which
+	// form is evaluated before a definition it needs) and is compared with the implementation: a
+	// snapshot the model cannot load must not load (needs are real), recorded in the evidence; a
+	// verdict is given only by the implementation's own load and probes.
+	var snapReqs []string
+	var snapIdx []int
+	for i := range results {
+		res := &results[i]
+		if res.Invalid != "" || res.Snap1 == "" {
+			continue
+		}
+		if toks := c19SnapForms(res.Sess, res.Snap1); len(toks) > 0 {
+			snapReqs = append(snapReqs, "lf snapload "+strings.Join(toks, " "))
+			snapIdx = append(snapIdx, i)
+		}
+	}
+	for k, rep := range c.Model(snapReqs) {
+		res := &results[snapIdx[k]]
+		f := strings.Fields(rep)
+		if len(f) < 2 || f[0] != "ok" {
+			fmt.Fprintf(os.Stderr, "c19: model rejected %s: %s\n", c19OneLine(snapReqs[k]), rep)
+			c.Ev.Count("snapload_bad_request", 1)
+			continue
+		}
+		loaded := res.Aspect != "unreadable" && !(res.Aspect == "host-fault" && res.Detail == "load")
+		switch {
+		case f[1] == "t" && loaded:
+			c.Ev.Count("snapload_model_and_load_ok", 1)
+		case f[1] == "nil" && !loaded:
+			c.Ev.Count("snapload_model_predicts_failed_load", 1)
+			if res.Detail == "whole-file" && len(f) >= 3 {
+				// every form evaluates when read and evaluated one by one, (load file) fails: the cause is
+				// the order in which load evaluates the forms, and the model names the form. The same
+				// construct must have the same signature wherever the snapshot writes the form.
+				if head, name, ok := strings.Cut(f[2], "|"); ok {
+					res.Detail = head + ":" + res.Sess.ownerKind(name)
+				}
+			}
+			res.Observed += "; model (lf snapload): " + strings.Join(f[2:], " ") + " is evaluated before a definition it needs (load evaluates defun/defmacro/defvar/defparameter/defconstant forms first)"
+		case f[1] == "nil" && loaded:
+			// the model demands a definition the implementation did not need: never a verdict
+			c.Ev.Count("snapload_model_stricter_than_load", 1)
+			fmt.Fprintf(os.Stderr, "c19: the model cannot load a snapshot that loads: %s (%s)\n", strings.Join(f[2:], " "), res.Sess.Cell)
+		default:
+			c.Ev.Count("snapload_load_failed_for_another_reason", 1)
+		}
+	}
+	c.Ev.Coverage["snapload_cases"] = len(snapReqs)
+	if tb := c.Model([]string{"lf sections"}); len(tb) == 1 {
+		c.Ev.Coverage["model_sections_and_first_pass"] = tb[0]
+	}
+	if c.GenBroken != "" {
+		c.Ev.Coverage["witness_search_for_broken_obligation"] = c.GenBroken
 	}
 	orderIdx := cases
 	invalid := 0
@@ -1180,14 +1507,15 @@ func c19ReplaySession(c *lib.Ctx, rec map[string]any) {
 		fmt.Println("replay file has no usable session:", err)
 		return
 	}
-	dir := filepath.Join(c.OutDir, "replay-session")
+	dir := filepath.Join(c.OutDir, fmt.Sprintf("replay-session-%d", os.Getpid()))
+	defer func() { _ = os.RemoveAll(dir) }()
 	reps := 1
 	if strings.HasPrefix(sess.Cell, "defflavor/order-witness") {
 		reps = 12 // depends on Go's map iteration order
 	}
 	fmt.Printf("replay session\n  %s\n", strings.Join(sess.forms(), "\n  "))
 	for i := 0; i < reps; i++ {
-		res := c19RunSession(dir, sess)
+		res := c19RunSessionAlone(dir, sess)
 		if res.Invalid != "" {
 			fmt.Println("  the session does not evaluate:", res.Invalid)
 			return
